@@ -255,7 +255,7 @@ def ts_strategy(stratum, tier):
     kvec = st.lists(st.integers(-kmax, kmax), min_size=D, max_size=D)
     return st.fixed_dictionaries(
         dict(D=st.just(D), N=st.just(N), k1=kvec, k2=kvec, a1=gens.nonzero_coef(0.5, 3.0), ratio_exp=st.floats(2.0, 10.0).map(lambda x: float("%.3g" % x)),
-             phi=st.floats(0, 6.28).map(lambda x: float("%.3g" % x)), chan_exp=st.floats(0.0, 9.0).map(lambda x: float("%.3g" % x)))
+             phi=st.floats(0, 6.28).map(lambda x: float("%.3g" % x)), chan_exp=st.floats(0.0, 9.0).map(lambda x: float("%.3g" % x)), scale_pick=st.integers(0, 2))
     )  # fmt: skip
 
 
@@ -305,6 +305,24 @@ def ts_check(case):
                     key=key + ":" + ("power" if power else "amplitude"),
                     msg="channel %d bin %d amplitude %.3g next to %.3g: got %.6g want %.6g" % (ch, b, a, a1, sp[ch, b], want),
                 )
+    # overall scale: the amplitude spectrum is homogeneous of degree one for every representable scale (a
+    # squared modulus formed before the square root under- or overflows long before the amplitude does)
+    for dtype, exps in ((np.float64, (-200, -160, 150)), (np.float32, (-30, -24, 18))):
+        e = exps[case.get("scale_pick", 0) % len(exps)]
+        c = 10.0**e
+        us = (np.stack([f, f]) * c).astype(dtype)
+        tagd = "float32" if dtype is np.float32 else "float64"
+        ok, sp = res.lib("get_spectrum", get_spectrum, jnp.asarray(us), power=False, radial_binning="sum", key=key + ":scaled:" + tagd)
+        if ok:
+            sp = np.asarray(sp, dtype=np.float64)
+            rel = 1e-6 if dtype is np.float64 else 2e-4
+            res.claim(
+                "amplitude_homogeneous_under_scaling:" + tagd,
+                abs(float(sp[0, b1]) / c - abs(a1)),
+                rel * abs(a1) * N ** (D / 2),
+                key=key + ":scaled:" + tagd,
+                msg="state scale 1e%d: bin %d got %.6g want %.6g" % (e, b1, sp[0, b1], abs(a1) * c),
+            )
     return res
 
 
